@@ -39,7 +39,7 @@ func init() {
 			return "named-string-or-bool-values"
 		case "pointers":
 			return "pointer-inside-interface-slot"
-		case "structs", "structs-shuffled":
+		case "structs", "structs-shuffled", "typed-structs":
 			if wholeObjectQuery.MatchString(q) {
 				return "struct-vs-map-whole-object"
 			}
@@ -127,6 +127,22 @@ func renderingsC10(rng *rand.Rand) []rendering {
 		{"json", func(d *D) *D { return d }},
 		{"structs", func(d *D) *D { return toStruct(d) }},
 		{"structs-shuffled", func(d *D) *D { return shuffleFields(toStruct(d), rng) }},
+		{"typed-structs", func(d *D) *D {
+			// structs whose scalar fields are declared with their own type (float64, string, bool), not `any`
+			return mapD(toStruct(d), func(x *D) *D {
+				if x.Tag == "st" {
+					n := *x
+					n.Fs = append([]h.Field{}, x.Fs...)
+					for i := range n.Fs {
+						if t := n.Fs[i].V.Tag; t == "f" || t == "s" || t == "b" {
+							n.Fs[i].Iface = false
+						}
+					}
+					return &n
+				}
+				return x
+			})
+		}},
 		{"typed-slices", func(d *D) *D {
 			return mapD(d, func(x *D) *D {
 				if x.Tag == "sl" {
@@ -307,6 +323,11 @@ func (g *c10gen) doc() *D {
 		for j, m := 0, r.Intn(3); j < m; j++ {
 			tags = append(tags, h.Str(c10Strs[r.Intn(len(c10Strs))]))
 		}
+		if r.Intn(5) == 0 {
+			// a row whose leaves are all zero values
+			rows = append(rows, h.Obj("k", h.FloatD(0), "name", h.Str(""), "on", h.Bool(false), "tags", h.SliceAny()))
+			continue
+		}
 		rows = append(rows, h.Obj("k", g.num(), "name", h.Str(c10Strs[1+r.Intn(len(c10Strs)-1)]), "on", h.Bool(r.Intn(2) == 0), "tags", h.SliceAny(tags...)))
 	}
 	nums := []*D{}
@@ -334,6 +355,7 @@ func (g *c10gen) query() string {
 		"$.t.Not()", "$.t.Equal(true)", "{$.t,$.n.GreaterOrEqual(0)}", "{OR,$.s.Equal(\"zz\"),$.rows.Any()}", "$.t.Equal({$.n.Less(100)})",
 		"$.missing?.IsNull()", "$.o.zz?.IsNull()", "$.rows.Index(0).tags.Count()", "$.o.IsNull()", "$.rows.IsEmpty()", "$.nums.IsNotEmpty()", "$.o[@.a.GreaterOrEqual($.o.b)]", "$.o[@.a.Equal($.o.a)].b", "$.o[@.a.Less(0)]",
 		"$.o.Sum()", "$.o.Maximum()", "$.o.Select(\"$\").Count()", "$.o.RemoveKeysByPrefix(\"a\")", "$.z.IsEmpty()", "$.z.Any()", "$.o.IsEmpty()", "$.none.IsNull()", "$.none.Count()", "$.none.zz?.IsNull()", "$.strs.IsNull()",
+		"$.z.p", "$.z.q.IsEmpty()", "$.z.p.Equal(0)", "$.z.P.Add($.z.p)", "$.rows[@.k.Equal(0)].Count()", "$.rows[@.name.IsEmpty()].k", "$.rows.on",
 		"$.rows.AsArray().Count()", "$.n.AsArray().First()", "$.limits.hi.Subtract($.limits.lo)", "$.rows[@.tags.Any()].name", "$.rows[@.tags[@.Equal(\"tag\")].Any()].k",
 	}
 	return qs[r.Intn(len(qs))]
